@@ -225,18 +225,22 @@ func genDefinition(rg *rng, cfg *genCfg, st genStats, l byte, gmn uint16) *recor
 	}
 	for i := 0; i < extra && len(r.Fields) < 200; i++ {
 		var num byte
-		for tries := 0; tries < 20; tries++ {
+		for tries := 0; tries < 40; tries++ {
 			num = byte(rg.intn(256))
-			if mi == nil {
-				break
-			}
-			listed := false
-			for _, f := range mi.Fields {
+			taken := false
+			for _, f := range r.Fields {
 				if f.Num == num {
-					listed = true
+					taken = true // no field number twice in one definition
 				}
 			}
-			if !listed {
+			if mi != nil {
+				for _, f := range mi.Fields {
+					if f.Num == num {
+						taken = true
+					}
+				}
+			}
+			if !taken {
 				break
 			}
 		}
